@@ -242,8 +242,8 @@ Lemma iter_documents_state c f c1 m :
 Proof.
   intros Hn. unfold iter_documents. rewrite (expire_id c Hn). cbn [bind].
   destruct (match docs c with [] => filter_applies f (VDoc []) | _ => Ok true end);
-    cbn [bind]; [|discriminate].
-  destruct (scan f (docs c)) as [m'|e]; cbn [bind]; [|discriminate].
+    cbn [bind]; [|rewrite Nat.eqb_refl; discriminate].
+  destruct (scan f (docs c)) as [m'|e]; cbn [bind]; [|rewrite Nat.eqb_refl; discriminate].
   intros H. injection H as <- <-. split; reflexivity.
 Qed.
 
